@@ -142,6 +142,7 @@ class C07(Prop):
                    'interned ints/strings are real sharing and treated as one object']
     quick_examples = 1000
     thorough_examples = 5000
+    fuzz_runs = 6000
     floors = {'budget_cut': 0.1, 'watch_on_framed_value': 0.3, 'log_before_snapshot': 0.05, 'all_frame': 0.2,
               'two_snapshots': 0.15, 'frame_holds_its_own_locals': 0.3, 'deferred_capture': 0.3}
 
